@@ -472,6 +472,29 @@ def gen_C13(t, n):
                 t.emit("shape %s" % rg, "own")
 
 
+def gen_C14(t, n):
+    r = t.rng
+    warmup(t, 8 + r.below(25))
+    for _ in range(n):
+        for _ in range(r.below(3)):
+            t.bg()
+        reg = r.pick(["A", "B"])
+        t.probes(reg)
+        c = r.below(100)
+        if c < 45:
+            st = view_script(t, reg, ["at", "left", "right", "find"], 3)
+            t.emit("par_bump %s %d %s" % (reg, 1 + r.below(4), " ".join(st)), "own")
+            t.emit("iter %s" % reg, "own")
+            t.emit("shape %s" % reg, "own")
+        elif c < 70:
+            st = view_script(t, reg, ["at", "left", "right"], 2)
+            k = r.pick(["union", "intersection", "difference", "covering_difference"])
+            t.emit("setop_split %s_mut:%d %s %s" % (k, 1 + r.below(3), reg, " ".join(st)), "own")
+            t.emit("iter %s" % reg, "own")
+        else:
+            ops_C13(t, reg)
+
+
 def gen_C15(t, n):
     r = t.rng
     for _ in range(n):
@@ -638,7 +661,7 @@ GENERATORS = {
     "C11": gen_obs(ops_C11),
     "C12": gen_obs(ops_C12),
     "C13": gen_C13,
-    "C14": gen_C13,
+    "C14": gen_C14,
     "C15": gen_C15,
     "C16": gen_C16,
     "C17": gen_C17,
